@@ -422,7 +422,7 @@ COMBOS = [
 ]
 
 
-def obligations(tier, seed):
+def _obligations(tier, seed):
     obs = []
     rng = random.Random(seed)
     sks = eg.skeletons(tier, seed)
@@ -443,3 +443,8 @@ def obligations(tier, seed):
             if j in (0, 4) and not (tier == "quick" and i == 1 and j == 0):
                 obs.append((nm + "/special-inputs", ob_registered(sk, combo, True, nm + "/special-inputs")))
     return obs
+
+
+def obligations(tier, seed):
+    from . import conform
+    return _obligations(tier, seed) + conform.obligations(PROPERTY, tier)
